@@ -1408,8 +1408,11 @@ class BaseImage(metaclass=ImageMeta):
             else:  # middle
                 top = (height - lines) // 2
                 bottom = height - lines - top
-            top = f"{' ' * width}\n" * top
-            bottom = f"\n{' ' * width}" * bottom
+            # The padding lines span the padded width, which is the render width
+            # when the padding width is less than it
+            fill = " " * max(width, cols)
+            top = f"{fill}\n" * top
+            bottom = f"\n{fill}" * bottom
         else:
             top = bottom = ""
 
